@@ -86,6 +86,8 @@ def term_to_value(t: dict):
         return V.SequenceValue(U.CLASSES[t["c"]], [(bool(m["many"]), term_to_value(m["t"])) for m in t["ms"]])
     if k == "subclass":
         return V.SubclassValue(term_to_value(t["t"]))
+    if k == "typevar":
+        return V.TypeVarValue(U.TYPEVARS[t["n"]])
     if k == "union":
         if not t["ms"]:
             return V.NO_RETURN_VALUE
@@ -105,6 +107,8 @@ def value_to_term(v) -> dict:
             V.AnySource.generic_argument: "generic_argument",
         }.get(v.source, "explicit")
         return {"k": "any", "src": src}
+    if isinstance(v, V.TypeVarValue):
+        return {"k": "typevar", "n": getattr(v.typevar, "__name__", "other")}
     if isinstance(v, V.KnownValue):
         return {"k": "known", "o": py_to_obj(v.val)}
     if isinstance(v, V.MultiValuedValue):
